@@ -127,7 +127,7 @@ func (g *gen) newMark() int {
 }
 
 var stmtKinds = []string{"if", "for", "switch", "rangeint", "rangeslice", "litassign", "iife", "defer", "go", "litarg", "litslice", "litstruct", "rangefunc", "rangefunc2", "rangefunc", "litassign", "usegeneric", "mark"}
-var declKinds = []string{"func", "void", "type", "gtype", "gfunc", "var-iife", "var-litval", "var-map", "init", "blank", "functype", "embedded", "namedint", "func", "void"}
+var declKinds = []string{"func", "void", "type", "gtype", "gfunc", "gsum", "var-iife", "var-litval", "var-map", "init", "blank", "functype", "embedded", "namedint", "func", "void"}
 
 func (g *gen) nextStmt() string {
 	if len(g.stmtDeck) == 0 {
@@ -669,6 +669,26 @@ func (s *src) decl(kind string, depth int) {
 		name := fmt.Sprintf("Gen%d", id)
 		p.gfuncs = append(p.gfuncs, name)
 		s.funcDecl("generic-func", fmt.Sprintf("func %s[X any](x X) X", name), "x", depth)
+	case "gsum":
+		// a generic function whose loop carries a value of the TYPE PARAMETER's type (an
+		// accumulator and a strided counter): the loop analysis meets operands whose
+		// underlying type is the constraint interface
+		name := fmt.Sprintf("GSum%d", id)
+		s.fn("generic-func", "top", true, "func %s[T ~int | ~int64 | ~float64](xs []T, step T) T {", name)
+		s.ind++
+		s.ln("var acc T")
+		s.ln("for _, x := range xs {")
+		s.ln("\tacc += x")
+		s.ln("}")
+		s.ln("for i := step; i < step+step+step; i += step {")
+		s.ln("\tacc = acc + i")
+		s.ln("}")
+		c := bctx{path: "generic-func", ret: "acc"}
+		s.block(c, depth, "")
+		s.ret(c)
+		s.ind--
+		s.ln("}")
+		s.ln("")
 	case "var-iife":
 		s.ln("var V%d =", id)
 		s.ind++
